@@ -348,7 +348,9 @@ func (p *Pipeline) doHandle(ctx *context.Context, flow []FlowNode, stats []Filte
 		node := &flow[i]
 		alias := node.filterAlias()
 
-		if next != "" && next != alias {
+		// A pending jump only lands on a filter node: validation does not
+		// count the alias of an END node as a jump target either.
+		if next != "" && (next != alias || node.FilterName == BuiltInFilterEnd) {
 			continue
 		}
 
